@@ -83,6 +83,8 @@ Proof. intros Hi Hj Hij Hu Hv Hw Hse. cbv zeta. unfold setFromTwoAxes. cbn [nleb
   assert (B2 : dot3 u b = 0) by (subst b; dvec u; dvec k; vunf; ring).
   assert (B3 : cross3 u b = k).
   { subst b. dvec u; dvec k. revert Hu K2. vunf. intros Hu K2. teq; nsatz_or_fail. }
+  (* the code recomputes uveck := unit(u x uvecj): over the reals that is k again *)
+  rewrite (unitvec_of_unit (cross3 u b)) by (apply cross_unit_perp; auto). rewrite B3.
   assert (N1 : nsq (v3_neg ROps k) = 1) by (dvec k; revert K1; vunf; intros K1; nsatz_or_fail).
   assert (N2 : dot3 u (v3_neg ROps k) = 0) by (dvec k; dvec u; revert K2; vunf; intros K2; nsatz_or_fail).
   assert (B4 : cross3 u (v3_neg ROps k) = b) by (subst b; dvec u; dvec k; vunf; teq; ring).
